@@ -563,8 +563,7 @@ def refOp (cfg : RefCfg) (s : Schema) (op : Op) (ws : List String) : RO RefResul
   let mi := s.optIdx.getD op.elem.optsIdx 0
   let c : RCx := ⟨cfg, s, op.elem.target⟩
   let isField := op.elem.fc.isSome
-  -- on a field, `default` and `json_name` are keywords of the field declaration: `default.x = …` does not parse
-  if isField && op.stmts.any (fun st => isPseudo true st && st.parts.length != 1) then .reject else
+  -- (on a field, `default.x = …` does not parse in protoc; here it reaches refResolve, which finds no such field)
   let real := op.stmts.filter (fun st => !isPseudo isField st)
   -- standard options first, then custom options (two passes in protoc as well)
   let ordered := real.filter (fun st => !firstIsExt st) ++ real.filter firstIsExt
